@@ -7,8 +7,8 @@
     (well-formedness, preservation of the functions) is derived in
     Mgr/LevelSwapWF.v and Mgr/LevelSwapProofs.v.
 
-    BDD kind only: binary nodes, no complement tags, reduction rule "both
-    children equal". *)
+    BDD and MTBDD kinds ([bink]): binary nodes, no complement tags, reduction
+    rule "both children equal". *)
 
 From Coq Require Import List NArith PArith Bool Arith Lia FMapPositive.
 From OxiVerif Require Import DD.Table DD.TableProofs Mgr.SortOrder Mgr.SortOrderProofs
@@ -19,20 +19,20 @@ Section Swap.
 Variable s : snap.
 Variable i : nat.
 Hypothesis H : WF s.
-Hypothesis Hk : s_kind s = KBdd.
+Hypothesis Hk : bink (s_kind s).
 Hypothesis Hi : S i < nlevels s.
 
 (** ** stored BDD nodes *)
 
 Lemma not_bcdd : s_kind s <> KBcdd.
-Proof. rewrite Hk. discriminate. Qed.
+Proof. apply bink_not_bcdd. exact Hk. Qed.
 
 Lemma bdd_children : forall id nd, find_node s id = Some nd ->
   exists c0 c1, nchildren nd = [c0; c1] /\ c0 <> c1.
 Proof.
-  intros id nd E. pose proof (wf_arity s H id nd E) as Ha. rewrite Hk in Ha. simpl in Ha.
+  intros id nd E. pose proof (wf_arity s H id nd E) as Ha. rewrite (bink_arity _ Hk) in Ha.
   destruct (length2 _ _ Ha) as [c0 [c1 Hc]]. exists c0, c1. split; [exact Hc|].
-  pose proof (wf_reduced s H id nd E) as Hr. unfold reduced in Hr. rewrite Hk, Hc in Hr.
+  pose proof (wf_reduced s H id nd E) as Hr. apply (bink_reduced s _ Hk) in Hr. rewrite Hc in Hr.
   intros Heq. apply Hr. apply all_same_pair. exact Heq.
 Qed.
 
